@@ -19,7 +19,7 @@ RULE = ("direct: tobytes() of every Command subclass over its parameter domain (
         "set-state over the C10 state generator, display toggle with both beep values) is parsed by a strict spec-conforming parser "
         "(0xAA, length byte == len-1, 0xAC, documented frame type, body ending in message id + CRC-8 (bitwise, table-free) and "
         "two's-complement checksum) and then by the reference device command parser; device-side: every public AirConditioner "
-        "operation against simulated devices with different capability profiles, with and without DEBUG logging enabled, - the device must accept every frame; ids of "
+        "operation against simulated devices with different capability profiles, with and without DEBUG logging enabled, also against devices using the additive body check whose replies are sometimes junk, corrupted, error packets, duplicated or missing, and with two client objects active at once; commands constructed first and serialised later in another order - the device must accept every frame; ids of "
         "consecutive distinct commands must advance by 1 mod 256 (checked over one long mixed sequence spanning several wrap-arounds). "
         "distinct = distinct frame bytes with the message id and check bytes blanked; all non-trivial")
 ASSUMPTIONS = ["documented frame types: queries and the display toggle 0x03, state/property writes 0x02",
@@ -114,10 +114,22 @@ def generate(ctx, rng):
     # device-side: public operations with capability profiles
     for j in range(80 if quick else 1200):
         yield ("ops", j), {"kind": "ops", "oseed": rng.getrandbits(32), "debug_logging": j % 2 == 1}
+    # the same against devices that use the additive body check and whose replies are sometimes junk, corrupted, an error packet or missing
+    for j in range(120 if quick else 2500):
+        yield ("ops-faulty", j), {"kind": "ops", "oseed": rng.getrandbits(32), "debug_logging": j % 5 == 1, "faulty": True,
+                                  "check": ["sum", "crc"][j % 2]}
+    # two client objects working against two devices at the same time
+    for j in range(60 if quick else 1500):
+        yield ("ops-pair", j), {"kind": "ops-pair", "oseed": rng.getrandbits(32)}
+    # commands constructed first and serialised later, in another order, with other commands constructed in between
+    for j in range(60 if quick else 3000):
+        yield ("deferred", j), {"kind": "deferred", "lseed": rng.getrandbits(32), "n": rng.randint(2, 9)}
 
 
 def run_case(ctx, case):
     k = case["kind"]
+    if getattr(ctx, "preamble", None) is not None:
+        _last_id[0] = None          # other library activity ran in this process since the previous case and consumed message ids
     if k == "simple":
         for additional in (False, True):
             m = _check_frame(ctx, case, C.GetCapabilitiesCommand(additional).tobytes(), "caps")
@@ -176,6 +188,23 @@ def run_case(ctx, case):
         for _ in range(case["n"]):
             frame, kind = r.choice(makers)()
             _check_frame(ctx, case, frame, kind)
+    elif k == "deferred":
+        import random
+        r = random.Random(case["lseed"])
+        ctors = [
+            lambda: (C.GetStateCommand(), "get_state"), lambda: (C.GetEnergyUsageCommand(), "get_energy"), lambda: (C.GetHumidityCommand(), "get_humidity"),
+            lambda: (C.GetCapabilitiesCommand(r.random() < 0.5), "caps"), lambda: (C.ToggleDisplayCommand(), "toggle_display"),
+            lambda: (C.GetPropertiesCommand(r.sample(SUPPORTED, r.randint(0, 9))), "prop_query"),
+            lambda: (C.SetPropertiesCommand({p: r.choice(VALUE_DOMAINS[p]) for p in r.sample(SUPPORTED, r.randint(1, 4))}), "prop_set"),
+            lambda: (C.SetStateCommand(), "control"),
+        ]
+        built = [r.choice(ctors)() for _ in range(case["n"])]
+        r.shuffle(built)
+        for cmd, kind in built:
+            r.choice(ctors)()          # another command is constructed (and dropped) just before this one is serialised
+            _check_frame(ctx, case, cmd.tobytes(), kind)
+    elif k == "ops-pair":
+        _ops_pair(ctx, case)
     else:
         _ops(ctx, case)
 
@@ -193,6 +222,78 @@ def _setprops(ctx, case, props):
         ids = [pid for pid, _ in m.prop_sets[0]]
         if sorted(ids) != sorted(int(p) for p in props):
             ctx.violation("prop-set-ids", "device reads different property ids than written", case, {"read": ids})
+
+
+def _ops_pair(ctx, case):
+    """Two AirConditioner objects with their own devices working at the same time (commands of both are constructed and
+    serialised interleaved); every frame either device receives must be acceptable and of the documented type."""
+    import asyncio
+    import random
+    r = random.Random(case["oseed"])
+    net = H.new_net()
+    devs = []
+    for k in range(2):
+        model = ACModel()
+        model.caps_pages = [r.choice(PROFILES)]
+        model.energy = (bytes([0, 0, 0x12, 0x34]), bytes(4), bytes([0, 1, 0]))
+        model.humidity = 55
+        for pid in acprops.SUPPORTED:
+            model.props[pid] = b"\x00\x00" if pid == acprops.P_IECO else b"\x01"
+        dev = SimDevice(net, host=f"10.12.0.{k + 1}", version=r.choice([2, 3]), token=bytes(64), key=bytes(range(32)), device_id=r.getrandbits(40), ac=model)
+        dev.on_exchange = lambda conn, req, packets, meta: [(r.choice([0.0, 0.01, 0.05, 0.2]), p) for p in packets]
+        devs.append(dev)
+    errs = []
+
+    async def client(dev):
+        ac = AC(ip=dev.host, port=dev.port, device_id=dev.device_id)
+        if dev.version == 3:
+            await ac.authenticate(dev.token, dev.key)
+        ac.enable_energy_usage_requests = True
+        await ac.get_capabilities()
+        for _ in range(r.randint(3, 8)):
+            op = r.choice(["refresh", "apply", "toggle", "caps", "props"])
+            try:
+                if op == "refresh":
+                    await ac.refresh()
+                elif op == "apply":
+                    gen.apply_to_ac(ac, gen.random_state(r))
+                    await ac.apply()
+                elif op == "toggle":
+                    await ac.toggle_display()
+                elif op == "caps":
+                    await ac.get_capabilities()
+                else:
+                    if ac.supports_vertical_swing_angle:
+                        ac.vertical_swing_angle = r.choice(AC.SwingAngle.list())
+                    if ac.supports_ieco:
+                        ac.ieco = r.random() < 0.5
+                    await ac.apply()
+            except Exception as e:  # noqa: BLE001
+                errs.append((op, e))
+            await asyncio.sleep(r.choice([0.0, 0.0, 0.02, 0.1]))
+
+    async def go(loop):
+        await asyncio.gather(*[client(d) for d in devs])
+
+    H.run_virtual(go, net)
+    for op, e in errs:
+        ctx.violation("operation-raises", f"{op} raised {type(e).__name__}: {e}", case)
+    for dev in devs:
+        for frame, why in dev.ac.rejected:
+            ctx.violation("device-rejects", f"with two clients active, a device rejected a frame: {why}", case, {"frame": frame})
+        for t, cid, frame in dev.frames_seen:
+            ctx.count(frame[:-3] + b"\x00\x00\x00", kind="device-frame-two-clients")
+            try:
+                cmd = acframe.parse_command(frame)
+            except RefError:
+                continue
+            kind = dev.ac.commands and None
+            body0 = cmd["body"][0]
+            want = 2 if body0 in (0x40, 0xB0) else 3
+            if cmd["frame_type"] != want:
+                ctx.violation("wrong-frame-type", f"with two clients active, a command with body id 0x{body0:02x} carried frame type {cmd['frame_type']}", case,
+                              {"frame": frame})
+    _last_id[0] = None
 
 
 PROFILES = [
@@ -218,6 +319,27 @@ def _ops(ctx, case):
     dev = SimDevice(net, version=r.choice([2, 3]), token=bytes(64), key=bytes(range(32)), device_id=r.getrandbits(40), ac=model)
     ops = [r.choice(["refresh", "apply", "caps", "toggle", "selfclean", "setprop+apply"]) for _ in range(r.randint(4, 14))]
     errs = []
+    marks = []          # number of frames the device had seen when each operation started
+    if case.get("faulty"):
+        model.report_check = case.get("check", "crc")
+        from ..ref import v3 as _v3
+
+        def on_exchange(conn, req, packets, meta):
+            x = r.random()
+            if x > 0.3 or not packets:
+                return None
+            if x < 0.08:
+                return [(0, bytes(r.randrange(256) for _ in range(64)))]                  # junk
+            if x < 0.16:
+                p = bytearray(packets[0])
+                p[r.randrange(len(p))] ^= 1 << r.randrange(8)
+                return [(0, bytes(p))]                                                    # a corrupted reply
+            if x < 0.22:
+                return [(0, _v3.build_error(0) if dev.version == 3 else packets[0][:20])]   # error packet / truncated packet
+            if x < 0.26:
+                return []                                                                 # silence: the request is retransmitted
+            return [(0, packets[0]), (0, packets[0])]                                     # duplicated reply
+        dev.on_exchange = on_exchange
 
     async def go(loop):
         ac = AC(ip=dev.host, port=dev.port, device_id=dev.device_id)
@@ -225,6 +347,7 @@ def _ops(ctx, case):
             await ac.authenticate(dev.token, dev.key)
         ac.enable_energy_usage_requests = r.random() < 0.5
         for op in ["caps"] + ops:
+            marks.append(len(dev.frames_seen))
             try:
                 if op == "refresh":
                     await ac.refresh()
@@ -266,15 +389,16 @@ def _ops(ctx, case):
     for frame, why in model.rejected:
         ctx.violation("device-rejects", f"simulated device rejected a frame emitted by a public operation: {why}", case, {"frame": frame, "ops": ops})
     prev = None
-    for t, cid, frame in dev.frames_seen:
+    for i, (t, cid, frame) in enumerate(dev.frames_seen):
         blank = frame[:-3] + b"\x00\x00\x00"
-        ctx.count(blank, kind="device-frame")
+        ctx.count(blank, kind="device-frame-faulty-session" if case.get("faulty") else "device-frame")
         try:
             cmd = acframe.parse_command(frame)
         except RefError:
             prev = None
             continue
-        if prev is not None and frame != prev[1]:
+        # identical bytes within one operation are a retransmission; across operations they are two commands
+        if prev is not None and (frame != prev[1] or i in marks):
             ctx.bump("id-step-checked")
             if cmd["msg_id"] != (prev[0] + 1) % 256:
                 ctx.violation("message-id-step", f"on the wire message id {cmd['msg_id']} follows {prev[0]}", case, {"frame": frame})
